@@ -280,6 +280,7 @@ def run(run: common.Run):
     refused_calls_leave_nothing(run, tmp, pair)
     if run.only is None:
         stale_sidecar_leg(run, tmp, pair)
+        symlink_source_leg(run, tmp, pair)
 
 
 def sig_px(path):
@@ -353,6 +354,78 @@ def stale_sidecar_leg(run, tmp, pair):
             s1, s2 = json.dumps(p1.stats(threads=1), default=float, sort_keys=True), json.dumps(p2.stats(threads=1), default=float, sort_keys=True)
     if s1 != s2:
         run.fail(case, 'parameter statistics of the overwritten output differ from those of a fresh run', signature=dict(kind='history-dependent', op='sidecar-stats'))
+
+
+def symlink_source_leg(run, tmp, pair):
+    """
+    `homonim fuse` on a source given through a symbolic link in another directory, without --out-dir: the outputs are requested next
+    to the path that was given (the link) and named after it; the directory of the link's target gets nothing, an output that
+    already exists beside the link is protected without -o and replaced with it, and a bystander of the same name beside the target
+    is never touched.  Also a source given by a relative path from the working directory.
+    """
+    from click.testing import CliRunner
+    from homonim import cli
+    arch, work = tmp / 'sl_archive', tmp / 'sl_work'
+    arch.mkdir()
+    work.mkdir()
+    shutil.copy(pair.src_path, arch / 'scene.tif')
+    try:
+        os.symlink(arch / 'scene.tif', work / 'src.tif')
+    except OSError:
+        run.hist['symbolic links not supported here: skipped'] += 1
+        return
+    args = ['fuse', str(work / 'src.tif'), str(pair.ref_path), '-m', 'gain', '-k', '1', '1', '-nbo', '-t', '1', '-pi']
+
+    def listing(d):
+        return sorted(p.name for p in d.iterdir())
+    case = dict(i=680_000, op='cli fuse on a symbolic link to the source, no --out-dir')
+    res = CliRunner().invoke(cli.cli, args)
+    run.evaluations += 1
+    run.hist['cli runs on a symlinked source'] += 1
+    run.nontrivial.add(('symlink',))
+    made = [n for n in listing(work) if n != 'src.tif']
+    if res.exit_code != 0:
+        run.fail(case, f'exit status {res.exit_code}', signature=dict(kind='other-error', op='symlink'))
+        return
+    if listing(arch) != ['scene.tif'] or len(made) != 2 or not all(n.startswith('src_FUSE_') for n in made):
+        run.fail(case, f'outputs are not beside the given path: link directory {listing(work)}, target directory {listing(arch)}',
+                 signature=dict(kind='outputs-elsewhere'))
+        return
+    # a bystander beside the target, named as the outputs would be if they were named after the target
+    by = arch / made[0].replace('src_FUSE_', 'scene_FUSE_')
+    by.write_bytes(b'not to be touched')
+    before_w, before_a = file_state(work), file_state(arch)
+    res2 = CliRunner().invoke(cli.cli, args)
+    run.evaluations += 1
+    case2 = dict(i=680_001, op='second run without -o')
+    if res2.exit_code == 0:
+        run.fail(case2, 'the second run without -o succeeded although its outputs exist', signature=dict(kind='clobbered', op='symlink'))
+    elif file_state(work) != before_w or file_state(arch) != before_a:
+        run.fail(case2, 'the refused second run changed files', signature=dict(kind='clobber-on-refusal', op='symlink'))
+    res3 = CliRunner().invoke(cli.cli, args + ['-o'])
+    run.evaluations += 1
+    case3 = dict(i=680_002, op='third run with -o')
+    after_w = file_state(work)
+    if res3.exit_code != 0:
+        run.fail(case3, f'the run with -o exited {res3.exit_code}', signature=dict(kind='other-error', op='symlink -o'))
+    elif file_state(arch) != before_a:
+        run.fail(case3, f'the run with -o touched the target directory: {listing(arch)}', signature=dict(kind='touched-other', op='symlink'))
+    elif any(after_w[n][1] == before_w[n][1] for n in made):
+        run.fail(case3, 'the run with -o did not replace the outputs beside the link', signature=dict(kind='not-replaced', op='symlink'))
+    # relative source path from the working directory
+    rel = tmp / 'sl_rel'
+    (rel / 'sub').mkdir(parents=True)
+    shutil.copy(pair.src_path, rel / 'sub' / 'img.tif')
+    old = os.getcwd()
+    try:
+        os.chdir(rel)
+        res4 = CliRunner().invoke(cli.cli, ['fuse', 'sub/img.tif', str(pair.ref_path), '-m', 'gain', '-k', '1', '1', '-nbo', '-t', '1'])
+    finally:
+        os.chdir(old)
+    run.evaluations += 1
+    if res4.exit_code != 0 or listing(rel) != ['sub'] or len([n for n in listing(rel / 'sub') if n.startswith('img_FUSE_')]) != 1:
+        run.fail(dict(i=680_003, op='relative source path'), f'exit {res4.exit_code}; {listing(rel)} / {listing(rel / "sub")}',
+                 signature=dict(kind='outputs-elsewhere', op='relative'))
 
 
 def refused_calls_leave_nothing(run, tmp, pair):
